@@ -24,7 +24,7 @@ PROPS["C07"] = dict(
         "Zrnt.Proofs.C07.ctx_count_eq_spec",
         "Zrnt.Proofs.C07.ctx_proposer_eq_spec_partial",
     ],
-    modes=[dict(name="committees")],
+    modes=[dict(name="committees"), dict(name="c07chain")],
     level="proof",
     trusted_base=TB_COMMON + [
         "hand model lean/Zrnt/Beacon/Committees.lean of shuffling.go / proposers.go / sync_committee.go / randao.go / epochs_context.go (NewShufflingEpoch slicing, ComputeProposerIndex with its 1000x32 cut-off, ComputeSyncCommitteeIndices with its cached hash, GetSeed, the three-epoch lookups), tied on every run by correspondence with a real EpochsContext built over synthetic phase0/altair BeaconState views (mode committees)",
